@@ -1,11 +1,274 @@
-/- C16 — executable model (stub; filled in by the property's owner). -/
+/-
+C16 — thresholds (`thresholding.py`: `otsu`, `rc`, `soft_threshold`, `bernsen`, `gbernsen`;
+`_histogram.cpp`: `otsu`; `histogram.py`: `fullhistogram`).
+
+The numeric kernels are written once, generic in the arithmetic, and are *run* at `Float`
+(bit-exact with the C/numpy doubles: same operations in the same order) and at `Rat`
+(exact), and *proved* at `Rat`/`Int`.
+-/
 import Mahotas.Model.Border
-import Mahotas.Model.DType
 namespace Mahotas.C16
 open Mahotas
 
+/-! ## histogram -/
+
+/-- `fullhistogram`: bins `0 … max`, one increment per pixel (`compute_histogram`) -/
+def fullhistogram (img : List Nat) : Array Nat :=
+  img.foldl (fun h v => h.modify v (· + 1)) (Array.replicate (img.foldl max 0 + 1) 0)
+
+/-- running sums `Σ_{j ≤ i} l[j]` -/
+def cumsum : List Nat → Nat → List Nat
+  | [], _ => []
+  | x :: xs, acc => (acc + x) :: cumsum xs (acc + x)
+
+/-- `l[i] * i` -/
+def weighted (l : List Nat) : List Nat := l.zipIdx.map fun (v, i) => i * v
+
+def sumL (l : List Nat) : Nat := l.foldl (· + ·) 0
+
+section generic
+variable {α : Type} [Add α] [Sub α] [Mul α] [Div α] [LT α] [DecidableLT α]
+
+/-! ## Otsu (`_histogram.cpp: otsu`) -/
+
+/-- the loop `for (T = 1; T != n; ++T)` with its running class means.
+    `h`, `nB`, `nO` are the histogram and the two cumulative counts. -/
+def otsuLoop (cast : Nat → α) (h nB nO : Nat → Nat) : List Nat → α → α → α → Nat → Nat
+  | [], _, _, _, bestT => bestT
+  | T :: rest, muB, muO, best, bestT =>
+    if nB T = 0 then otsuLoop cast h nB nO rest muB muO best bestT          -- continue
+    else if nO T = 0 then bestT                                              -- break
+    else
+      let muB' := (muB * cast (nB (T - 1)) + cast (T * h T)) / cast (nB T)
+      let muO' := (muO * cast (nO (T - 1)) - cast (T * h T)) / cast (nO T)
+      let s := cast (nB T) * cast (nO T) * (muB' - muO') * (muB' - muO')
+      if best < s then otsuLoop cast h nB nO rest muB' muO' s T
+      else otsuLoop cast h nB nO rest muB' muO' best bestT
+
+/-- `otsu(hist, n)`; counts are exact in a double below 2^53, so they are kept as naturals and
+    converted (`cast`) where the C code uses them in double arithmetic. -/
+def otsuGen (cast : Nat → α) (hist : List Nat) : Nat :=
+  let n := hist.length
+  if n ≤ 1 then 0 else
+  let H := hist.toArray
+  let h := fun i => H.getD i 0
+  let Hsum := sumL (hist.drop 1)
+  if Hsum = 0 then 0 else
+  let NB := (cumsum hist 0).toArray
+  let nB := fun i => NB.getD i 0
+  let nO := fun i => nB (n - 1) - nB i
+  let muB := cast 0
+  let muO := cast (sumL (weighted hist)) / cast Hsum
+  let best := cast (nB 0) * cast (nO 0) * (muB - muO) * (muB - muO)
+  otsuLoop cast h nB nO (List.range' 1 (n - 1)) muB muO best 0
+
+/-! ## Riddler–Calvard (`thresholding.py: rc`) -/
+
+/-- the loop `while t < min(maxt, res)` over `t = 0, 1, …` -/
+def rcLoop (cast : Nat → α) (cum rcum fm rfm : Nat → Nat) (maxt : Nat) : List Nat → α → α
+  | [], res => res
+  | t :: rest, res =>
+    if t < maxt ∧ cast t < res then
+      let res' :=
+        if cum t ≠ 0 ∧ rcum (t + 1) ≠ 0 then
+          (cast (fm t) / cast (cum t) + cast (rfm (t + 1)) / cast (rcum (t + 1))) / cast 2
+        else res
+      rcLoop cast cum rcum fm rfm maxt rest res'
+    else res
+
+/-- index of the last non-zero bin (`while hist[maxt] == 0: maxt -= 1`), 0 if there is none -/
+def lastNonzero (hist : List Nat) : Nat :=
+  (hist.zipIdx.foldl (fun m (v, i) => if v ≠ 0 then i else m) 0)
+
+/-- `rc` on a histogram that has a non-zero bin -/
+def rcGen (cast : Nat → α) (hist : List Nat) : α :=
+  let n := hist.length
+  let C := (cumsum hist 0).toArray
+  let F := (cumsum (weighted hist) 0).toArray
+  let cum := fun i => C.getD i 0
+  let fm := fun i => F.getD i 0
+  -- reversed cumulative sums: Σ_{j ≥ i}
+  let rcum := fun i => cum (n - 1) - (if i = 0 then 0 else cum (i - 1))
+  let rfm := fun i => fm (n - 1) - (if i = 0 then 0 else fm (i - 1))
+  let maxt := lastNonzero hist
+  rcLoop cast cum rcum fm rfm maxt (List.range n) (cast maxt)
+
+/-! ## from the image: the histogram is the only summary used -/
+
+/-- the histogram handed to the kernels: `fullhistogram(img)`, bin 0 cleared when zeros are ignored -/
+def histOf (img : List Nat) (ignoreZeros : Bool) : List Nat :=
+  let h := (fullhistogram img).toList
+  if ignoreZeros then h.set 0 0 else h
+
+/-- `mahotas.otsu(img, ignore_zeros)` on the pixels in C order -/
+def otsuImg (cast : Nat → α) (img : List Nat) (ignoreZeros : Bool) : Nat :=
+  otsuGen cast (histOf img ignoreZeros)
+
+/-- `mahotas.rc(img, ignore_zeros)`; `if hist[0] == img.size: return 0` when zeros are ignored -/
+def rcImg (cast : Nat → α) (img : List Nat) (ignoreZeros : Bool) : α :=
+  if ignoreZeros && (fullhistogram img).getD 0 0 == img.length then cast 0
+  else rcGen cast (histOf img ignoreZeros)
+
+/-! ## soft threshold -/
+
+/-- `f = f*(|f| > t); f -= t*(f > t); f += t*(f < -t)` for one element -/
+def softGen (zero : α) (f t : α) : α :=
+  let absf := if f < zero then zero - f else f
+  let g := if t < absf then f else zero
+  let g1 := if t < g then g - t else g
+  if g1 < zero - t then g1 + t else g1
+
+/-- the statement: shrink the magnitude by `t`, zero when it does not exceed `t` -/
+def softSpec (zero : α) (f t : α) : α :=
+  let absf := if f < zero then zero - f else f
+  if t < absf then (if f < zero then zero - (absf - t) else absf - t) else zero
+
+end generic
+
+/-! ## exact specification of the two global thresholds (rationals) -/
+
+def ratStr (q : Rat) : String := s!"{q.num}/{q.den}"
+
+/-- between-class variance `n_B n_O (μ_B − μ_O)²` of the split `{0..T} | {T+1..}`; 0 when a class is empty.
+    Arguments: the four class sums. -/
+def sigmaOf (nB nO sB sO : Nat) : Rat :=
+  if nB = 0 ∨ nO = 0 then 0
+  else (nB : Rat) * (nO : Rat) * ((sB : Rat) / (nB : Rat) - (sO : Rat) / (nO : Rat)) *
+        ((sB : Rat) / (nB : Rat) - (sO : Rat) / (nO : Rat))
+
+/-- `σ(T)` for every `T = 0 … n-1` -/
+def sigmaAll (hist : List Nat) : List Rat :=
+  let C := cumsum hist 0
+  let F := cumsum (weighted hist) 0
+  let tot := C.getLastD 0
+  let ftot := F.getLastD 0
+  (C.zip F).map fun (c, f) => sigmaOf c (tot - c) f (ftot - f)
+
+def listMax (l : List Rat) : Rat := l.foldl (fun m x => if m < x then x else m) 0
+
+/-- first index attaining the maximum -/
+def firstArgmax (l : List Rat) : Nat :=
+  let m := listMax l
+  (l.zipIdx.find? fun (x, _) => x == m).map (·.2) |>.getD 0
+
+/-- midpoint of the class means for the split at `t` (both classes non-empty) -/
+def midpoint (cB cO sB sO : Nat) : Rat :=
+  ((sB : Rat) / (cB : Rat) + (sO : Rat) / (cO : Rat)) / 2
+
+def absRat (q : Rat) : Rat := if q < 0 then -q else q
+
+/-- Riddler–Calvard by the statement: with `lo`/`hi` the smallest/largest occurring level, the
+    midpoint of the class means at the first `t ∈ [lo, hi)` whose midpoint is `≤ t+1`
+    (one level: that level; no pixel: 0). Also returns the smallest distance `|m(t) − (t+1)|`
+    met on the way (the decision margin). -/
+def rcSpec (hist : List Nat) : Rat × Rat × Nat × Nat :=
+  let C := (cumsum hist 0).toArray
+  let F := (cumsum (weighted hist) 0).toArray
+  let tot := C.getD (hist.length - 1) 0
+  let ftot := F.getD (hist.length - 1) 0
+  let hi := lastNonzero hist
+  let lo := ((hist.zipIdx.find? fun (v, _) => v ≠ 0).map (·.2)).getD 0
+  if tot = 0 then (0, 1, 0, 0) else
+  if lo = hi then ((lo : Rat), 1, lo, hi) else
+  let rec go (ts : List Nat) (margin : Rat) (last : Rat) : Rat × Rat :=
+    match ts with
+    | [] => (last, margin)
+    | t :: rest =>
+      let m := midpoint (C.getD t 0) (tot - C.getD t 0) (F.getD t 0) (ftot - F.getD t 0)
+      let d := absRat (m - ((t : Rat) + 1))
+      let margin := if d < margin then d else margin
+      if m ≤ (t : Rat) + 1 then (m, margin) else go rest margin m
+  let r := go (List.range' lo (hi - lo)) (hi + 1 : Nat) 0
+  (r.1, r.2, lo, hi)
+
+/-! ## Bernsen -/
+
+/-- the statement's rule for one pixel, everything doubled to stay in the integers
+    (`2·mid = max + min`): where the local contrast reaches the threshold the pixel is compared with
+    the local mid-grey, elsewhere the mid-grey with the global threshold. `true` = below
+    (the orientation `fmean > f` / `fmean < gthresh` of the code). -/
+def bernsenRule (lmax lmin f ct g2 : Int) : Bool :=
+  if lmax - lmin ≥ ct then decide (lmax + lmin > 2 * f) else decide (lmax + lmin < g2)
+
+/-- the pinned (unrepaired) selection: alternatives the other way round -/
+def bernsenPinned (lmax lmin f ct g2 : Int) : Bool :=
+  if lmax - lmin < ct then decide (lmax + lmin > 2 * f) else decide (lmax + lmin < g2)
+
+/-- offsets `k − shape/2` of the non-zero entries of the structuring element -/
+def seOffsets (bshape : List Nat) (bc : Array Int) : List (List Int) :=
+  let c := centreOf bshape
+  (List.range (shapeSize bshape)).filterMap fun i =>
+    if bc.getD i 0 == 0 then none else some (subPos (unravelI bshape i) c)
+
+/-- the neighbourhood values `rank_filter` gathers at `p` (mode `reflect`) -/
+def neighbours (A : Img Int) (offs : List (List Int)) (p : List Int) : List Int :=
+  offs.filterMap fun k =>
+    match fixPos .reflect A.shape (addPos p k) with
+    | some q => some (A.getD q 0)
+    | none => none
+
+def listMaxI (l : List Int) : Int := l.foldl max (l.headD 0)
+def listMinI (l : List Int) : Int := l.foldl min (l.headD 0)
+
+/-- `gbernsen(f, se, contrast_threshold, gthresh)` at pixel `p`; `g2 = 2·gthresh` -/
+def gbernsenAt (rule : Int → Int → Int → Int → Int → Bool) (A : Img Int) (offs : List (List Int))
+    (ct g2 : Int) (p : List Int) : Bool :=
+  let nb := neighbours A offs p
+  rule (listMaxI nb) (listMinI nb) (A.getD p 0) ct g2
+
+/-- the whole neighbourhood lies inside the image (no border rule involved) -/
+def interiorAt (shape : List Nat) (offs : List (List Int)) (p : List Int) : Bool :=
+  offs.all fun k => inside shape (addPos p k)
+
+/-! ## driver entry -/
+
+def natsOf (a : Args) (k : String) : List Nat := (a.ints k).map Int.toNat
+
+def floatCast (n : Nat) : Float := Float.ofNat n
+def ratCast (n : Nat) : Rat := (n : Rat)
+
 def handle (a : Args) : String :=
   match a.str "kind" with
+  | "hist" =>
+    s!"hist={showNats (fullhistogram (natsOf a "data")).toList}"
+  | "otsu" =>
+    -- data = pixels; iz = ignore_zeros; got = the threshold the implementation returned
+    let pix := natsOf a "data"
+    let iz := a.nat "iz" == 1
+    let hist := histOf pix iz
+    let sig := sigmaAll hist
+    let got := a.nat "got"
+    let exact := if hist.length ≤ 4096 then toString (otsuImg ratCast pix iz) else "skipped"
+    s!"model={otsuImg floatCast pix iz} exact={exact} first={firstArgmax sig} " ++
+    s!"smax={ratStr (listMax sig)} sgot={ratStr (sig.getD got (-1))} n={hist.length}"
+  | "rc" =>
+    let pix := natsOf a "data"
+    let iz := a.nat "iz" == 1
+    let hist := histOf pix iz
+    let allZero := iz && (fullhistogram pix).getD 0 0 == pix.length
+    let sp := if allZero then ((0 : Rat), (1 : Rat), 0, 0) else rcSpec hist
+    let exact := if hist.length ≤ 4096 then ratStr (rcImg ratCast pix iz) else "skipped"
+    s!"model={showFloats [rcImg floatCast pix iz]} exact={exact} spec={ratStr sp.1} " ++
+    s!"margin={ratStr sp.2.1} lo={sp.2.2.1} hi={sp.2.2.2}"
+  | "soft" =>
+    if a.str "dt" == "f64" then
+      let t := (a.floats "t").headD 0
+      let fs := a.floats "data"
+      s!"model={showFloats (fs.map fun f => softGen 0.0 f t)} spec={showFloats (fs.map fun f => softSpec 0.0 f t)}"
+    else
+      let t := a.int "t"
+      let fs := a.ints "data"
+      s!"model={showInts (fs.map fun f => softGen (0 : Int) f t)} spec={showInts (fs.map fun f => softSpec (0 : Int) f t)}"
+  | "gbernsen" =>
+    let shape := a.nats "shape"
+    let A : Img Int := { shape := shape, data := (a.ints "data").toArray }
+    let offs := seOffsets (a.nats "bshape") (a.ints "bc").toArray
+    let ct := a.int "ct"
+    let g2 := a.int "g2"
+    let ps := allPos shape
+    s!"model={showBools (ps.map (gbernsenAt bernsenRule A offs ct g2))} " ++
+    s!"pinned={showBools (ps.map (gbernsenAt bernsenPinned A offs ct g2))} " ++
+    s!"interior={showBools (ps.map (interiorAt shape offs))}"
   | k => s!"error=unknown-kind-{k}"
 
 end Mahotas.C16
